@@ -236,7 +236,11 @@ def consumer_cases(mods, rep, exprs, name, cases, meta, stats, seen):
     paths = SC.paths_of(exprs)
     text = mods['nodeio'].write_smtlib_to_str(exprs)
     props, info = [], []
-    for p in P.enumerate_proposals(mods, exprs, muts):
+    import itertools
+    # both calling conventions of the strategies: node by node (hierarchical)
+    # and "filter every node, then ask the accepted ones" (ddmin)
+    for p in itertools.chain(P.enumerate_proposals(mods, exprs, muts),
+                             P.enumerate_batch(mods, exprs, muts)):
         if p['error']:
             stats['consumer_errors'] += 1
             continue
@@ -257,7 +261,8 @@ def consumer_cases(mods, rep, exprs, name, cases, meta, stats, seen):
                     continue
             except Exception:  # noqa
                 continue
-        key = (p['mut'], str(p['node']), str(repl))
+        key = (p['mut'], str(p['node']), str(repl),
+               ' '.join(str(d) for d in simp.fresh_vars))
         if key in seen:
             continue
         seen.add(key)
